@@ -756,8 +756,17 @@ func c14(c *ctx) {
 	c14readFromEntry(c, r.fork())
 	c14udpEntry(c, r.fork())
 	c14udpReturn(c, r.fork())
-	for k := 0; k < 2; k++ {
-		c14system(c, k)
+	for k := 0; k < 3; k++ {
+		// the last round on a single processor: a goroutine started by the server's accept loop then runs only when the
+		// loop blocks, i.e. after it has gone round again - the schedule in which a value the goroutine shares with the
+		// loop has been overwritten by the time the goroutine reads it
+		if k == 2 {
+			old := runtime.GOMAXPROCS(1)
+			c14system(c, k)
+			runtime.GOMAXPROCS(old)
+		} else {
+			c14system(c, k)
+		}
 	}
 	for k := 0; k < 16; k++ {
 		c14smallBuffers(c, k)
